@@ -142,13 +142,17 @@ impl FileSystem for MemoryFS {
         let prefix = format!("{}/", path);
         let handle = self.handle.read().unwrap();
         let mut found_directory = false;
+        let mut found_file = false;
         #[allow(clippy::needless_collect)] // need collect to satisfy lifetime requirements
         let entries: Vec<_> = handle
             .files
             .iter()
-            .filter_map(|(candidate_path, _)| {
+            .filter_map(|(candidate_path, candidate)| {
                 if candidate_path == path {
-                    found_directory = true;
+                    match candidate.file_type {
+                        VfsFileType::Directory => found_directory = true,
+                        VfsFileType::File => found_file = true,
+                    }
                 }
                 if candidate_path.starts_with(&prefix) {
                     let rest = &candidate_path[prefix.len()..];
@@ -159,6 +163,9 @@ impl FileSystem for MemoryFS {
                 None
             })
             .collect();
+        if found_file {
+            return Err(VfsErrorKind::Other("Not a directory".into()).into());
+        }
         if !found_directory {
             return Err(VfsErrorKind::FileNotFound.into());
         }
